@@ -66,6 +66,10 @@ func (p *Parser) Parse(source string) (Node, error) {
 	// Use zero allocation tokenizer for optimal performance
 	tokenizer := GetTokenizer(p.source, 0)
 
+	// The token slice aliases the tokenizer's buffer, so the tokenizer may only
+	// go back to the pool once the tokens have been consumed
+	defer ReleaseTokenizer(tokenizer)
+
 	// Use optimized version for larger templates
 	if len(p.source) > 4096 {
 		// Use the optimized tag detection for large templates
@@ -80,9 +84,6 @@ func (p *Parser) Parse(source string) (Node, error) {
 		tokenizer.ApplyWhitespaceControl()
 	}
 
-	// Return the tokenizer to the pool
-	ReleaseTokenizer(tokenizer)
-
 	if err != nil {
 		return nil, fmt.Errorf("tokenization error: %w", err)
 	}
@@ -93,13 +94,8 @@ func (p *Parser) Parse(source string) (Node, error) {
 	// Parse tokens into nodes
 	nodes, err := p.parseOuterTemplate()
 	if err != nil {
-		// Clean up token slice on error
-		ReleaseTokenSlice(p.tokens)
 		return nil, fmt.Errorf("parsing error: %w", err)
 	}
-
-	// Clean up token slice after successful parsing
-	ReleaseTokenSlice(p.tokens)
 
 	return NewRootNode(nodes, 1), nil
 }
